@@ -2,6 +2,7 @@ import OjgVerif.Asm.LemmasOrder
 import OjgVerif.Asm.LemmasPrint
 import OjgVerif.Asm.LemmasNum
 import OjgVerif.Asm.LemmasPlan
+import OjgVerif.Asm.LemmasRerun
 import OjgVerif.Gen.AsmFacts
 /-! # C20 — assembly plans evaluate totally, deterministically and as documented
 
@@ -301,6 +302,184 @@ example : HeapHi 2 condCounterHeap ∧ 2 ≤ condCounterHeap.length ∧ Val.hi 2
 
 /-- the hypothesis `Dev.copies` is needed: before 52cf3c4 the plan's literal (cell 0) was edited -/
 example : (execute envBefore true 9 (some counterPlan) (.mref 1) counterHeap).2[0]? ≠ counterHeap[0]? := by decide
+
+/-- the cells of the plan only refer to cells of the plan (literals are trees of their own) -/
+def Cell.lo (k : Nat) : Cell → Prop
+  | .arr xs => ∀ v ∈ xs, v.lo k
+  | .map kvs => ∀ kv ∈ kvs, kv.2.lo k
+
+def PlanClosed (k : Nat) (h : Heap) : Prop := ∀ i c, i < k → h[i]? = some c → Cell.lo k c
+
+theorem cell_lo_fixed (s : Sh) {c : Cell} (hc : Cell.lo s.k c) : s.cell c = c := by
+  cases c with
+  | arr xs =>
+    simp only [Sh.cell]
+    congr 1
+    have : ∀ (ys : List Val), (∀ v ∈ ys, v.lo s.k) → ys.map s.val = ys := by
+      intro ys
+      induction ys with
+      | nil => intro _; rfl
+      | cons y r ih =>
+        intro h
+        simp only [List.map]
+        rw [Sh.val_lo (h y (List.mem_cons_self ..)), ih (fun v hv => h v (List.mem_cons_of_mem _ hv))]
+    exact this xs hc
+  | map kvs =>
+    simp only [Sh.cell]
+    congr 1
+    have : ∀ (ys : List (Bytes × Val)), (∀ kv ∈ ys, kv.2.lo s.k) → ys.map (fun kv => (kv.1, s.val kv.2)) = ys := by
+      intro ys
+      induction ys with
+      | nil => intro _; rfl
+      | cons y r ih =>
+        intro h
+        simp only [List.map]
+        rw [Sh.val_lo (h y (List.mem_cons_self ..)), ih (fun v hv => h v (List.mem_cons_of_mem _ hv))]
+    exact this kvs hc
+
+/-- GENERAL equivariance: insert ANY cells `G` between the plan (the first `k` cells) and the data and
+move the data up; for every plan whose literals live in the plan's cells, every root, heap, fuel, under
+the deviations of the code as it is (`Dev.copies`): `Execute` has the same outcome and leaves the image
+of the heap it leaves without the insertion — wherever the run without the insertion does not end in
+`diverge` or `enum` (the two stops whose detection depends on the heap size). -/
+theorem execute_insert (dev : Dev) (hd : dev.copies) (r : Bool) (fuel : Nat) (plan : Arg) (root : Val) (h : Heap)
+    (s : Sh) (hk : s.k ≤ h.length) (hlo : ArgLo s.k plan)
+    (hfirm : (execute ⟨dev, none⟩ r fuel (some plan) root h).1 ≠ .diverge ∧
+             (execute ⟨dev, none⟩ r fuel (some plan) root h).1 ≠ .enum) :
+    execute ⟨dev, none⟩ r fuel (some plan) (s.val root) (s.heap h) =
+      ((execute ⟨dev, none⟩ r fuel (some plan) root h).1, s.heap (execute ⟨dev, none⟩ r fuel (some plan) root h).2) := by
+  unfold execute at hfirm ⊢
+  simp only at hfirm ⊢
+  cases plan with
+  | lit v => rfl
+  | raw v es => rfl
+  | path p => rfl
+  | unk => rfl
+  | call f args =>
+    simp only at hfirm ⊢
+    cases hlo with
+    | call _ _ hargs =>
+      have heq := (evalFn_eqv (s := s) (eval ⟨dev, none⟩ root fuel) (eval ⟨dev, none⟩ (s.val root) fuel) dev hd root root f args
+        hargs (fun a ha at' => eval_eqv dev hd root fuel a ha at')).eq h hk
+      cases hr : evalFn ⟨dev, none⟩ (eval ⟨dev, none⟩ root fuel) root root f args h with
+      | mk res h' =>
+        rw [hr] at heq hfirm
+        have hf : Firm res := by
+          intro e he hs
+          subst he
+          rcases hs with hs | hs <;> subst hs <;> simp at hfirm
+        obtain ⟨e1, _⟩ := heq hf
+        rw [e1]
+        cases res with
+        | ok v => rfl
+        | error e => cases e <;> rfl
+
+/-- GENERAL re-run theorem for the modelled functions. Heap `h`: the plan's cells below `k` (closed: they
+only refer to each other), then the data, which does not refer to the plan, with the root in it. Run the
+plan once; `G` is everything from `k` on that the run leaves (the used root, new cells). Put an equal root
+after it — the original data cells, moved — and run THE SAME plan again. Then the second run has the same
+outcome, leaves the plan's cells as they were, and leaves as data the image of the data the first run
+left: equal results. Excluded, and named: runs that end `diverge` (cyclic data, C20-cyclic-data) or `enum`
+(a map iteration order is needed, C20-map-order). -/
+theorem rerun_general (dev : Dev) (hd : dev.copies) (r : Bool) (fuel : Nat) (plan : Arg) (root : Val) (h : Heap) (k : Nat)
+    (hk : k ≤ h.length) (hlo : ArgLo k plan) (hclosed : PlanClosed k h) (hh : HeapHi k h) (hroot : root.hi k)
+    (hfirm : (execute ⟨dev, none⟩ r fuel (some plan) root h).1 ≠ .diverge ∧
+             (execute ⟨dev, none⟩ r fuel (some plan) root h).1 ≠ .enum) :
+    let run1 := execute ⟨dev, none⟩ r fuel (some plan) root h
+    let s : Sh := ⟨k, run1.2.drop k⟩
+    -- the heap for the second run: what run 1 left, then the original data again (moved)
+    let h2 := run1.2 ++ (h.drop k).map s.cell
+    let run2 := execute ⟨dev, none⟩ r fuel (some plan) (s.val root) h2
+    run2.1 = run1.1 ∧ run2.2 = s.heap run1.2 ∧ (∀ i, i < k → run2.2[i]? = h[i]?) := by
+  intro run1 s h2 run2
+  have hun := plan_cells_untouched dev hd r fuel (some plan) root h k hh hk hroot
+  have hlen1 : k ≤ run1.2.length := Nat.le_trans hk hun.2.2
+  -- the heap for the second run is the insertion of `G` into the first heap
+  have htake : (h.take k).map s.cell = run1.2.take k := by
+    apply List.ext_getElem?
+    intro i
+    by_cases hi : i < k
+    · rw [List.getElem?_map, List.getElem?_take, List.getElem?_take]
+      simp only [hi, if_true]
+      rw [hun.1 i hi]
+      cases hg : h[i]? with
+      | none => rfl
+      | some c => simp only [Option.map]; rw [cell_lo_fixed s (hclosed i c hi hg)]
+    · rw [List.getElem?_eq_none (by simp [List.length_take]; omega), List.getElem?_eq_none (by simp [List.length_take]; omega)]
+  have hh2 : h2 = s.heap h := by
+    show run1.2 ++ (h.drop k).map s.cell = (h.take s.k).map s.cell ++ s.G ++ (h.drop s.k).map s.cell
+    show run1.2 ++ (h.drop k).map s.cell = (h.take k).map s.cell ++ run1.2.drop k ++ (h.drop k).map s.cell
+    rw [htake, List.take_append_drop]
+  have hins := execute_insert dev hd r fuel plan root h s hk hlo hfirm
+  have hrun2 : run2 = (run1.1, s.heap run1.2) := by
+    show execute ⟨dev, none⟩ r fuel (some plan) (s.val root) h2 = _
+    rw [hh2]; exact hins
+  refine ⟨by rw [hrun2], by rw [hrun2], ?_⟩
+  intro i hi
+  rw [hrun2]
+  have hia : s.ad i = i := by
+    have : i < s.k := hi
+    unfold Sh.ad; rw [if_pos this]
+  show (s.heap run1.2)[i]? = h[i]?
+  rw [← hia, Sh.heap_get s run1.2 hlen1 i, hia, hun.1 i hi]
+  cases hg : h[i]? with
+  | none => rfl
+  | some c => simp only [Option.map]; rw [cell_lo_fixed s (hclosed i c hi hg)]
+
+/-- "equal results": whatever a simple path reads under the second root after the second run is the image
+of what it reads under the first root after the first run — the same scalar, or the moved reference -/
+theorem rerun_reads_equal (s : Sh) (dev : Dev) (h1 : Heap) (hk : s.k ≤ h1.length) (root : Val) (fs : List Frag) :
+    pathFirst ⟨dev, none⟩ (s.heap h1) (s.val root) fs = (pathFirst ⟨dev, none⟩ h1 root fs).map (Option.map s.val) :=
+  Sh.pathFirst_sh s dev h1 hk fs root
+
+/-- the code as it is -/
+theorem rerun_current (r : Bool) (fuel : Nat) (plan : Arg) (root : Val) (h : Heap) (k : Nat)
+    (hk : k ≤ h.length) (hlo : ArgLo k plan) (hclosed : PlanClosed k h) (hh : HeapHi k h) (hroot : root.hi k)
+    (hfirm : (execute envCur r fuel (some plan) root h).1 ≠ .diverge ∧ (execute envCur r fuel (some plan) root h).1 ≠ .enum) :
+    let run1 := execute envCur r fuel (some plan) root h
+    let s : Sh := ⟨k, run1.2.drop k⟩
+    let run2 := execute envCur r fuel (some plan) (s.val root) (run1.2 ++ (h.drop k).map s.cell)
+    run2.1 = run1.1 ∧ run2.2 = s.heap run1.2 ∧ (∀ i, i < k → run2.2[i]? = h[i]?) :=
+  rerun_general Dev.current ⟨rfl, rfl, rfl⟩ r fuel plan root h k hk hlo hclosed hh hroot hfirm
+
+/-- an instance of the hypotheses: `condCounterPlan` on `condCounterHeap` with the boundary 2 (cells 0, 1 are
+the plan's list `[0 7]` and pair; the literals of the plan are those two cells) — and the run ends `ok` -/
+example : ArgLo 2 condCounterPlan ∧ PlanClosed 2 condCounterHeap ∧
+    (execute envCur true 9 (some condCounterPlan) (.mref 2) condCounterHeap).1 = .ok := by
+  refine ⟨?_, ?_, by decide⟩
+  · refine .call _ _ (fun a ha => ?_)
+    simp at ha
+    rcases ha with ha | ha <;> subst ha
+    · refine .call _ _ (fun a ha => ?_)
+      simp at ha
+      rcases ha with ha | ha <;> subst ha
+      · exact .path _
+      · refine .call _ _ (fun a ha => ?_)
+        simp at ha; subst ha
+        refine .raw _ _ (by show 1 < 2; omega) (fun e he => ?_)
+        simp at he
+        rcases he with he | he <;> subst he
+        · exact .lit _ trivial
+        · refine .raw _ _ (by show 0 < 2; omega) (fun e he => ?_)
+          simp at he
+          rcases he with he | he <;> subst he <;> exact .lit _ trivial
+    · refine .call _ _ (fun a ha => ?_)
+      simp at ha
+      rcases ha with ha | ha <;> subst ha
+      · exact .path _
+      · refine .call _ _ (fun a ha => ?_)
+        simp at ha
+        rcases ha with ha | ha <;> subst ha
+        · exact .path _
+        · exact .lit _ trivial
+  · intro i c hi hget
+    have : i = 0 ∨ i = 1 := by omega
+    rcases this with h | h <;> subst h <;> simp [condCounterHeap] at hget <;> subst hget <;>
+      intro v hv <;> simp at hv
+    · rcases hv with hv | hv <;> subst hv <;> trivial
+    · rcases hv with hv | hv <;> subst hv
+      · trivial
+      · show 0 < 2; omega
 
 /-! ## 4. documented results -/
 
